@@ -28,9 +28,38 @@ KF_C03c(step) ==
 (* silently instead of being refused.                                           *)
 KF_C05_refuse(step) == IF step.op.op = "SetTime" THEN "KF-C05-settime-replace" ELSE ""
 
+(* KF-unified-registers: unified() of a bundle that holds two or more records of    *)
+(* one identifier re-validates their names in that bundle (copy()/add_attributes), *)
+(* which registers, on the SOURCE bundle, namespaces it had only inherited from    *)
+(* its document (or adopts the document's default namespace).  Content unchanged.  *)
+InheritedNsOnly(step, c) ==
+  LET P == step.parents[c] IN
+  /\ P # "" /\ c \in DOMAIN step.post.con
+  /\ step.post.con[c] = step.pre.con[c]
+  /\ step.post.ns[c] # step.pre.ns[c]
+  /\ SeqToSet(step.pre.ns[c].reg) \subseteq SeqToSet(step.post.ns[c].reg)
+  /\ \A e \in SeqToSet(step.post.ns[c].reg) \ SeqToSet(step.pre.ns[c].reg) : e \in SeqToSet(step.pre.ns[P].reg)
+  /\ \/ step.post.ns[c].dflt = step.pre.ns[c].dflt
+     \/ (step.pre.ns[c].dflt = NONE /\ step.post.ns[c].dflt = step.pre.ns[P].dflt)
+UnifiesDup(step, c) ==
+  \E i, j \in 1..Len(step.pre.con[c].recs) : i < j /\ SameGroup(step.pre.con[c].recs[i], step.pre.con[c].recs[j])
+KF_pure(step) ==
+  LET srcs == UnifySources(step)
+      changed == {c \in srcs : ~SameCon(step, c)}
+  IN IF step.op.op = "Unified" /\ changed # {} /\
+        \A c \in changed : InheritedNsOnly(step, c) /\ UnifiesDup(step, c)
+     THEN "KF-unified-registers" ELSE ""
+KF_frame(step) ==
+  LET changed == {h \in DOMAIN step.pre.con \ Owned(step) : ~SameCon(step, h)} IN
+  IF step.op.op = "Unified" /\ changed # {} /\ changed \subseteq UnifySources(step) /\
+     \A c \in changed : InheritedNsOnly(step, c) /\ UnifiesDup(step, c)
+  THEN "KF-unified-registers" ELSE ""
+
 KnownFinding(step, c) ==
   CASE c = "C03c" -> KF_C03c(step)
     [] c = "C05_refuse" -> KF_C05_refuse(step)
+    [] c = "C08_pure"   -> KF_pure(step)
+    [] c = "C12_frame"  -> KF_frame(step)
     [] OTHER -> ""
 
 =============================================================================
